@@ -504,7 +504,8 @@ class UnionMetaType(StructureMetaType):
         if cls.size is None:
             start = stream.tell()
             result, sizes = cls._read_fields(stream, context)
-            size = stream.tell() - start
+            # The union extends to the end of its largest member, which is not necessarily the last one read
+            size = max(((field.offset or 0) + sizes[field._name] for field in cls.__fields__), default=0)
             stream.seek(start)
             buf = stream.read(size)
         else:
